@@ -1,5 +1,6 @@
 """C09 -- rank transforms move every point to its image and nothing else."""
 
+import copy
 import itertools
 
 from hypothesis import strategies as st
@@ -193,6 +194,17 @@ def check(case, rec):
         if got != want:
             raise Violation("flatten", f"flattenRanks(depth={depth}, levels={levels}, {style}) of {cont} gives {got}, "
                             f"expected {want}")
+        if depth >= 1 and case["step"] % 2 == 0:
+            # the fiber-level entry point for "below the top": the same flatten applied to every fiber found at
+            # depth-1 of (a copy of) the root
+            root2 = copy.deepcopy(t).getRoot()
+            res = root2.flattenRanksBelow(depth=depth - 1, levels=levels, style=style)
+            fb = res if isinstance(res, Fiber) else root2
+            gotb = observe.content_of(fb, d - levels, default)
+            if gotb != want:
+                raise Violation("flatten-below", f"flattenRanksBelow(depth={depth - 1}, levels={levels}, {style}) of {cont} "
+                                f"gives {gotb}, expected {want}")
+            rec.cls("flatten-through-Below-form")
         if kind == "flatten_unflatten" or (case["inverse"] and style != "linear"):
             rsnap = observe.snap(r.getRoot())
             back = r.unflattenRanks(depth=depth, levels=levels)
